@@ -68,6 +68,8 @@ class Controller:
             def acquire(self, blocking=True, timeout=-1):
                 me = threading.current_thread().name
                 ctl.yield_point(me)
+                if not blocking and self.owner not in (None, me):
+                    return False  # a try-lock does not wait
                 while self.owner not in (None, me):
                     ctl.block(me)
                 self.owner = me
@@ -202,12 +204,21 @@ def scen_disposable():
         hits = []
         x = d.Disposable(lambda: hits.append(1))
 
+        early = []
+
+        def body():
+            x.dispose()
+            if not x.is_disposed:  # read right after THIS call returned, whatever the other thread is doing
+                early.append("a dispose() call returned while is_disposed was still False")
+
         def check():
             if len(hits) != 1:
                 return f"action ran {len(hits)} times"
+            if early:
+                return early[0]
             if not x.is_disposed:
                 return "is_disposed is False after dispose() returned"
-        return x, [x.dispose, x.dispose], check
+        return x, [body, body], check
     return [("dispose || dispose", build)]
 
 
@@ -216,7 +227,13 @@ def scen_boolean():
 
     def build():
         x = d.BooleanDisposable()
-        return x, [x.dispose, x.dispose], lambda: None if x.is_disposed else "not disposed"
+        early = []
+
+        def body():
+            x.dispose()
+            if not x.is_disposed:
+                early.append("a dispose() call returned while is_disposed was still False")
+        return x, [body, body], lambda: (early[0] if early else None) if x.is_disposed else "not disposed"
     return [("dispose || dispose", build)]
 
 
@@ -313,6 +330,13 @@ def scen_composite():
             used = [a] + ([b] if "b" in desc else [])
 
             def check():
+                if "dispose" in desc:
+                    # dispose() has returned: the group reports it, and whatever was added - before or after - is disposed by now
+                    if not c.is_disposed:
+                        return "dispose() returned and is_disposed is still False"
+                    for it in used:
+                        if it.count != 1:
+                            return f"{it}: disposed {it.count} times once dispose() and add() have both returned, expected exactly once"
                 c.dispose()
                 for it in used:
                     if it.count != 1:
